@@ -125,7 +125,9 @@ CLAIMS = {
              'evaluated in the kernel. The loop of InClass.renderwob is translated from the source on every run '
              '(harness/trans_in.py -> GenIn.lean) and proved equal to inLoop: gen_in_step_is_model (one pass: flag stores, '
              'guarded fetch, tuple convention, push / render / pop), gen_in_step_keeps_start (the stored sequence-start is '
-             'the computed one), gen_in_loop_is_model, gen_in_loop_from_start. Correspondence: unbatched loops over lists/tuples '
+             'the computed one), gen_in_loop_is_model, gen_in_loop_from_start; the batched loop of renderwb likewise equal to inLoopB: '
+             'gen_in_batch_pre_is_model (= batchStep), gen_in_batch_step_is_model, gen_in_batch_loop_is_model, '
+             'gen_in_batch_loop_from_start. Correspondence: unbatched loops over lists/tuples '
              'of objects, mappings, 2-tuples, strings, numbers printing every variable, and nested loops with different '
              'prefixes; oracle: documented values computed from element positions, also for iterators / generators / lazy '
              'sequences and sort / reverse / batch combinations',
